@@ -589,6 +589,7 @@ fn ev_class(ev: &REvent) -> &'static str {
         REvent::AddUser { .. } => "user",
         REvent::AddUserAdmin { .. } => "useradmin",
         REvent::AddRight { .. } => "right",
+        REvent::AddGroupWith { .. } => "group-with-entries",
     }
 }
 
